@@ -20,6 +20,7 @@ TStep == /\ l < Len(TraceLog)
               /\ CASE ev.e = "A" -> ANext
                    [] ev.e = "U" -> UNext
                    [] ev.e = "C" -> CNext
+                   [] ev.e = "fault" -> IOFail
                    [] OTHER -> FALSE
               /\ Proj' = ev.pt
          /\ l' = l + 1
